@@ -107,7 +107,10 @@ var c01Attrs = [][]string{
 
 var c01Texts = []string{"", " ", "\n\t ", "1", "2", "3", "4", "10", "[2]", "(3)", "Next", "next page", "Prev", "Previous", "»", "«", "older", "word",
 	"two words", "Comments", "Shares", "<p>markup like</p>", "a&b<c>", "中文字符测试内容", "한국어 텍스트", "日本語のテキスト", " ", "x y",
-	"Title - Site", "A: B", "100", "101", "0", "-1", "1 2 3", "page 2 of 3", "Alpha Beta Gamma - Section - Site"}
+	"Title - Site", "A: B", "100", "101", "0", "-1", "1 2 3", "page 2 of 3", "Alpha Beta Gamma - Section - Site",
+	"速報：本日のニュースまとめ記事です", "タイトル｜サイト名のページです", "한국어 제목： 부제목 텍스트 입니다", "Заголовок： подзаголовок статьи сайта", "a：b", "：", "one two three： four five",
+	"Title » Section » Site", "A \\ B \\ C D E", "x > y > z w v", "Ⅻ ２ ３", "１", "２", "٣", "Next »", "‹ Prev", "\u200fRTL\u200e text \u200b zero width", "e\u0301 combining",
+	"İstanbul Kelvin K ſ", "a\u00a0b\u00a0c d e f", strings.Repeat("长", 160), strings.Repeat("word ", 40) + ": tail"}
 
 func genText(t *rapid.T) string {
 	switch rapid.IntRange(0, 9).Draw(t, "txtk") {
